@@ -7,4 +7,5 @@ var Monitors = map[string]func(*core.Run){
 	"C01": RunC01,
 	"C02": RunC02,
 	"C03": RunC03,
+	"C04": RunC04,
 }
